@@ -558,8 +558,14 @@ def run(chk):
                             "versa, the agent's pid, protected endpoints / same ip other port / same port other ip / UDP), the two hook points "
                             "of different threads interleaved arbitrarily, some attempts failing between the hooks; the UNMODIFIED "
                             "ebpf_cgroup.c runs in user space against a simulator of the documented helper/map semantics with the exact arrays "
-                            "the real Rust encoders produce; audit values decoded by the real Rust decoder")
+                            "the real Rust encoders produce; audit values decoded by the real Rust decoder; one thread may connect several "
+                            "times in a row; 260 leaked hand-over entries against the bounded model; the cgroup2 mount lookup against "
+                            "stand-in findmnt programs; and IN THE RUNNING KERNEL: the same source built with clang -target bpf, loaded by the "
+                            "agent's BpfObject (both programs pass the verifier), cgroup/connect4 attached to a test cgroup, real processes "
+                            "with uid != gid connecting to protected / unprotected / UDP / other-port destinations (where they land, what "
+                            "local_map then holds), policy and skip maps kept through the agent's own methods and read back")
     chk.assumptions += ["BPF helper/map semantics as documented (bpf-helpers(7)); verifier acceptance, attach points and real LRU eviction are the kernel's",
                         "the first cgroup2 mount findmnt lists is the boot-time mount of the whole hierarchy (attach theorems hook_runs_for_every_process)",
                         "tcp_connect's kprobe runs after cgroup/connect4 of the same syscall on the same thread",
+                        "the running kernel has no kprobes (CONFIG_KPROBES unset): the tcp_connect program is loaded (verifier) but never runs there",
                         "hook H4's audit_entry() repeats the five-field mapping of BpfObject::lookup_audit (which needs a loaded BPF object)"]
